@@ -18,23 +18,40 @@ Definition arith5 (o : binop) : bool := match o with BAdd | BSub | BMul | BDiv |
 Definition step_ok (B : list str) (st : option expr) : bool :=
   match st with None => true | Some e => ok_expr B e end.
 
+(* the table of the module-level functions visible in the current activation: name -> (parameters, body) *)
+Definition ftab := list (str * (list str * list stmt)).
+Definition fnames (FT : ftab) : list str := map fst FT.
+
+Section OkStmt.
+Variable FT : ftab.
+(* a call of a known function with the right number of call-free arguments *)
+Definition ok_call (B : list str) (e : expr) : bool :=
+  match e with
+  | ECall (EVar f) args =>
+    match assoc f FT with
+    | Some (ps, _) => Nat.eqb (length args) (length ps) && forallb (ok_expr B) args
+    | None => false end
+  | _ => false
+  end.
+Definition ok_rhs (B : list str) (e : expr) : bool := ok_expr B e || ok_call B e.
 Fixpoint ok_stmt (il : bool) (B : list str) (s : stmt) {struct s} : bool :=
   let fix okb (il : bool) (B : list str) (l : list stmt) {struct l} : bool :=
     match l with [] => true | s :: l => ok_stmt il B s && okb il (after B s) l end in
   match s with
-  | SAssign x e => src_nameb x && ok_expr B e
+  | SAssign x e => src_nameb x && negb (mem_str x (fnames FT)) && ok_rhs B e
   | SOpAssign x o e => arith5 o && src_nameb x && mem_str x B && ok_expr B e
-  | SPrint e => ok_expr B e
-  | SExpr e => ok_expr B e
+  | SPrint e => ok_rhs B e
+  | SExpr e => ok_rhs B e
   | SAssert e _ => ok_expr B e
   | SIf c b => ok_expr B c && okb il B b
   | SIfElse c b e => ok_expr B c && okb il B b && okb il B e
   | SIfElif c b n => ok_expr B c && okb il B b && ok_stmt il B n
   | SWhile c b => ok_expr B c && okb true B b
   | SFrom a b _ st (Some x) false body =>
-    src_nameb x && negb (mem_str x B) && ok_expr B a && ok_expr B b && step_ok (x :: B) st && okb true (x :: B) body
+    src_nameb x && negb (mem_str x (fnames FT)) && negb (mem_str x B) && ok_expr B a && ok_expr B b && step_ok (x :: B) st && okb true (x :: B) body
   | SBreak => il
   | SContinue => il
+  | SReturn (Some e) => ok_rhs B e
   | _ => false
   end.
 
@@ -50,10 +67,12 @@ Proof. reflexivity. Qed.
 Lemma ok_SWhile : forall il B c b, ok_stmt il B (SWhile c b) = ok_expr B c && ok_block true B b.
 Proof. reflexivity. Qed.
 Lemma ok_SFrom : forall il B a b incl st x body, ok_stmt il B (SFrom a b incl st (Some x) false body) =
-  src_nameb x && negb (mem_str x B) && ok_expr B a && ok_expr B b && step_ok (x :: B) st && ok_block true (x :: B) body.
+  src_nameb x && negb (mem_str x (fnames FT)) && negb (mem_str x B) && ok_expr B a && ok_expr B b && step_ok (x :: B) st && ok_block true (x :: B) body.
 Proof. reflexivity. Qed.
 
-Lemma src_nameb_ok : forall x, src_nameb x = true -> uname x.
+End OkStmt.
+
+Lemma src_nameb_ok : forall x, src_nameb x = true -> uname0 x.
 Proof.
   intros [|c x] H; [split; exact Logic.I|].
   destruct (N.eq_dec c 35) as [->|H35]; [discriminate|].
@@ -74,12 +93,29 @@ Proof.
 Qed.
 
 Lemma ok_expr_parts : forall B e, ok_expr B e = true ->
-  pure e = true /\ lits_ok e = true /\ forall x, In x (used_e e) -> uname x /\ In x B.
+  pure e = true /\ lits_ok e = true /\ forall x, In x (used_e e) -> uname0 x /\ In x B.
 Proof.
   intros B e H. unfold ok_expr in H. apply Bool.andb_true_iff in H as [H H3]. apply Bool.andb_true_iff in H as [H1 H2].
   split; [exact H1|]. split; [exact H2|]. intros x Hx. rewrite forallb_forall in H3. specialize (H3 x Hx).
   apply Bool.andb_true_iff in H3 as [A C]. split; [now apply src_nameb_ok|now apply mem_str_In].
 Qed.
+
+(* ================================================================ right-hand sides: a call-free expression, or a call
+   of a module-level function / of the executing function itself with call-free arguments *)
+Fixpoint argcode (k : nat) (l : list expr) : list instr :=
+  match l with [] => [] | a :: l => pcode k a ++ [mkI OP_STORE_FAST [reg k]] ++ argcode (S k) l end.
+Fixpoint argloads (k : nat) (l : list expr) : list instr :=
+  match l with [] => [] | _ :: l => mkI OP_LOAD_FAST [reg k] :: argloads (S k) l end.
+Definition xcode (c : nat) (e : expr) : list instr :=
+  match e with
+  | ECall (EVar f) args =>
+    [mkI OP_LOAD [f]; mkI OP_STORE_FAST [reg (S c)]] ++ argcode (S (S c)) args ++ argloads (S (S c)) args
+      ++ [mkI OP_LOAD_FAST [reg (S c)]; mkI OP_CALL []]
+  | ESelf args => argcode (S c) args ++ argloads (S c) args ++ [mkI OP_CALL_SELF []]
+  | _ => pcode c e
+  end.
+Lemma xcode_pure : forall c e, pure e = true -> xcode c e = pcode c e.
+Proof. intros c e H. destruct e; try reflexivity; discriminate. Qed.
 
 (* ================================================================ the direct code generator *)
 Definition step_code (c : nat) (st : option expr) : list citem :=
@@ -90,11 +126,11 @@ Fixpoint sitems (c : nat) (lr : nat) (sl : option nat) (s : stmt) {struct s} : l
     match l with [] => [] | s :: l => sitems c lr sl s ++ bl lr sl l end in
   let inner := option_map S sl in
   match s with
-  | SAssign x e => map CI (pcode c e) ++ [I OP_STORE [x]]
+  | SAssign x e => map CI (xcode c e) ++ [I OP_STORE [x]]
   | SOpAssign x o e => map CI (pcode (S c) e) ++ [I OP_BIN_OP_ASSIGN [binop_sym o ++ [61%N]; x]; I OP_VOID []]
-  | SPrint e => map CI (pcode c e) ++ [I OP_PRINTN [s_star]; I OP_VOID []]
+  | SPrint e => map CI (xcode c e) ++ [I OP_PRINTN [s_star]; I OP_VOID []]
   | SAssert e sp => map CI (pcode c e) ++ [I OP_ASSERT [sp]]
-  | SExpr e => map CI (pcode c e) ++ [I OP_VOID []]
+  | SExpr e => map CI (xcode c e) ++ [I OP_VOID []]
   | SIf cnd body =>
     let cb := bl lr inner body ++ [I OP_DONE []] in
     map CI (pcode c cnd) ++ [I OP_IF_STMT [sN (length cb + 1)]] ++ cb
@@ -123,6 +159,7 @@ Fixpoint sitems (c : nat) (lr : nat) (sl : option nat) (s : stmt) {struct s} : l
       ++ [I OP_DELETE_NAME_SCOPED [x; endr]]
   | SBreak => [CBrk (match sl with Some n => n | None => 0 end)]
   | SContinue => [CCont (match sl with Some n => n | None => 0 end)]
+  | SReturn (Some e) => map CI (xcode c e) ++ [I OP_RET []]
   | _ => []
   end.
 
@@ -229,61 +266,78 @@ Lemma cstmt_SFrom : forall c sl a b incl step x body st,
 Proof. reflexivity. Qed.
 
 Definition frag_eq (c : nat) (s : stmt) : Prop :=
-  forall il B sl st, ok_stmt il B s = true -> cstmt path c sl s st = (sitems c (lreg st) sl s, st).
+  forall FT il B sl st, ok_stmt FT il B s = true -> cstmt path c sl s st = (sitems c (lreg st) sl s, st).
 
 Lemma cblockT_frag : forall c l, Forall (frag_eq c) l ->
-  forall il B sl st, ok_block il B l = true -> cblockT c sl l st = (bitems c (lreg st) sl l, st).
+  forall FT il B sl st, ok_block FT il B l = true -> cblockT c sl l st = (bitems c (lreg st) sl l, st).
 Proof.
-  intros c. induction l as [|s l IH]; intros HF il B sl st Hok; [reflexivity|].
+  intros c. induction l as [|s l IH]; intros HF FT il B sl st Hok; [reflexivity|].
   inversion HF as [|? ? Hs Hl]; subst. cbn [ok_block] in Hok. apply Bool.andb_true_iff in Hok as [H1 H2].
-  cbn [cblockT bitems]. rewrite (Hs il B sl st H1). rewrite (IH Hl il (after B s) sl st H2). reflexivity.
+  cbn [cblockT bitems]. rewrite (Hs FT il B sl st H1). rewrite (IH Hl FT il (after B s) sl st H2). reflexivity.
 Qed.
 
 Ltac okx H := repeat (rewrite Bool.andb_true_iff in H; let H' := fresh H in destruct H as [H H']).
 
 Lemma cexpr_ok : forall B e d st, ok_expr B e = true -> cexpr path d e st = (map CI (pcode d e), st).
 Proof. intros B e d st H. apply ok_expr_parts in H as (Hp & _ & _). now apply cexpr_pure. Qed.
+Lemma cargs_pure : forall B l k st, forallb (ok_expr B) l = true ->
+  cargs path k l st = (map CI (argcode k l), map CI (argloads k l), st).
+Proof.
+  intros B. induction l as [|a l IH]; intros k st H; [reflexivity|].
+  cbn [forallb] in H. apply Bool.andb_true_iff in H as [H1 H2]. cbn [cargs argcode argloads].
+  rewrite (cexpr_ok B) by exact H1. rewrite IH by exact H2. rewrite !map_app. reflexivity.
+Qed.
+Lemma cexpr_rhs : forall FT B e d st, ok_rhs FT B e = true -> cexpr path d e st = (map CI (xcode d e), st).
+Proof.
+  intros FT B e d st H. unfold ok_rhs in H. apply Bool.orb_true_iff in H as [H|H].
+  - rewrite xcode_pure; [now apply (cexpr_ok B)|]. now apply ok_expr_parts in H as (Hp & _ & _).
+  - destruct e; try discriminate. destruct e; try discriminate. cbn [ok_call] in H.
+    destruct (assoc x FT) as [[ps body]|]; [|discriminate]. apply Bool.andb_true_iff in H as [_ H].
+    rewrite cexpr_ECall. cbn [cexpr]. rewrite (cargs_pure B) by exact H. cbn [xcode]. rewrite !map_app. reflexivity.
+Qed.
+Lemma cexpr_okx : forall B e d st, ok_expr B e = true -> cexpr path d e st = (map CI (xcode d e), st).
+Proof. intros B e d st H. rewrite xcode_pure; [now apply (cexpr_ok B)|]. now apply ok_expr_parts in H as (Hp & _ & _). Qed.
 
 Theorem cstmt_frag : forall c s, frag_eq c s.
 Proof.
   intros c. apply (stmt_ind' (fun _ => True) (frag_eq c)); try (intros; exact Logic.I); unfold frag_eq.
-  - intros x e _ il B sl st H. cbn [ok_stmt] in H. okx H. cbn [cstmt sitems]. now rewrite (cexpr_ok B).
-  - intros x e _ il B sl st H. discriminate.
-  - intros x o e _ il B sl st H. cbn [ok_stmt] in H. okx H. cbn [cstmt sitems]. now rewrite (cexpr_ok B).
-  - intros e _ il B sl st H. cbn [ok_stmt] in H. cbn [cstmt sitems]. now rewrite (cexpr_ok B).
-  - intros e sp _ il B sl st H. cbn [ok_stmt] in H. cbn [cstmt sitems]. now rewrite (cexpr_ok B).
-  - intros e _ il B sl st H. cbn [ok_stmt] in H. cbn [cstmt sitems]. now rewrite (cexpr_ok B).
-  - intros cnd b _ Hb il B sl st H. rewrite ok_SIf in H. okx H.
+  - intros x e _ FT il B sl st H. cbn [ok_stmt] in H. okx H. cbn [cstmt sitems]. now rewrite (cexpr_rhs FT B).
+  - intros x e _ FT il B sl st H. discriminate.
+  - intros x o e _ FT il B sl st H. cbn [ok_stmt] in H. okx H. cbn [cstmt sitems]. now rewrite (cexpr_ok B).
+  - intros e _ FT il B sl st H. cbn [ok_stmt] in H. cbn [cstmt sitems]. now rewrite (cexpr_rhs FT B).
+  - intros e sp _ FT il B sl st H. cbn [ok_stmt] in H. cbn [cstmt sitems]. now rewrite (cexpr_ok B).
+  - intros e _ FT il B sl st H. cbn [ok_stmt] in H. cbn [cstmt sitems]. now rewrite (cexpr_rhs FT B).
+  - intros cnd b _ Hb FT il B sl st H. rewrite ok_SIf in H. okx H.
     rewrite cstmt_SIf, sitems_SIf, (cexpr_ok B) by assumption.
-    rewrite (cblockT_frag c b Hb il B _ st) by assumption. reflexivity.
-  - intros cnd b e _ Hb He il B sl st H. rewrite ok_SIfElse in H. okx H.
+    rewrite (cblockT_frag c b Hb FT il B _ st) by assumption. reflexivity.
+  - intros cnd b e _ Hb He FT il B sl st H. rewrite ok_SIfElse in H. okx H.
     rewrite cstmt_SIfElse, sitems_SIfElse, (cexpr_ok B) by assumption.
-    rewrite (cblockT_frag c b Hb il B _ st) by assumption.
-    rewrite (cblockT_frag c e He il B _ st) by assumption. reflexivity.
-  - intros cnd b n _ Hb Hn il B sl st H. rewrite ok_SIfElif in H. okx H.
+    rewrite (cblockT_frag c b Hb FT il B _ st) by assumption.
+    rewrite (cblockT_frag c e He FT il B _ st) by assumption. reflexivity.
+  - intros cnd b n _ Hb Hn FT il B sl st H. rewrite ok_SIfElif in H. okx H.
     rewrite cstmt_SIfElif, sitems_SIfElif, (cexpr_ok B) by assumption.
-    rewrite (cblockT_frag c b Hb il B _ st) by assumption.
-    rewrite (Hn il B _ st) by assumption. reflexivity.
-  - intros cnd b _ Hb il B sl st H. rewrite ok_SWhile in H. okx H.
+    rewrite (cblockT_frag c b Hb FT il B _ st) by assumption.
+    rewrite (Hn FT il B _ st) by assumption. reflexivity.
+  - intros cnd b _ Hb FT il B sl st H. rewrite ok_SWhile in H. okx H.
     rewrite cstmt_SWhile, sitems_SWhile, (cexpr_ok B) by assumption.
-    rewrite (cblockT_frag c b Hb true B _ st) by assumption. reflexivity.
-  - intros a b incl step nm col body _ _ _ Hbody il B sl st H.
+    rewrite (cblockT_frag c b Hb FT true B _ st) by assumption. reflexivity.
+  - intros a b incl step nm col body _ _ _ Hbody FT il B sl st H.
     destruct nm as [x|]; [|discriminate]. destruct col; [discriminate|].
     rewrite ok_SFrom in H. okx H.
     rewrite cstmt_SFrom, sitems_SFrom, (cexpr_ok B) by assumption.
     rewrite (cexpr_ok B) by assumption.
-    cbv zeta. rewrite (cblockT_frag c body Hbody true (x :: B) _ _) by assumption. cbn [lreg fid fbuf].
+    cbv zeta. rewrite (cblockT_frag c body Hbody FT true (x :: B) _ _) by assumption. cbn [lreg fid fbuf].
     assert (Est : forall stx : cst, {| fid := fid stx; lreg := S (lreg stx) - 1; fbuf := fbuf stx |} = stx).
     { intros [f l0 fb]. cbn. now rewrite Nat.sub_0_r. }
     destruct step as [e|].
     + cbn [step_ok] in H3. rewrite (cexpr_ok (x :: B)) by assumption. cbn [step_code]. cbn [lreg fid fbuf]. rewrite Est. reflexivity.
     + cbn [step_code]. cbn [lreg fid fbuf]. rewrite Est. reflexivity.
-  - intros il B sl st H. reflexivity.
-  - intros il B sl st H. reflexivity.
-  - intros e _ il B sl st H. discriminate.
+  - intros FT il B sl st H. reflexivity.
+  - intros FT il B sl st H. reflexivity.
+  - intros [e|] _ FT il B sl st H; [|discriminate]. cbn [ok_stmt] in H. cbn [cstmt sitems]. now rewrite (cexpr_rhs FT B).
 Qed.
 
-Corollary cblockT_ok : forall c l il B sl st, ok_block il B l = true -> cblockT c sl l st = (bitems c (lreg st) sl l, st).
+Corollary cblockT_ok : forall c l FT il B sl st, ok_block FT il B l = true -> cblockT c sl l st = (bitems c (lreg st) sl l, st).
 Proof.
   intros c l. apply cblockT_frag. apply Forall_forall. intros s _. apply cstmt_frag.
 Qed.
